@@ -224,12 +224,13 @@ Definition group_chains (sdu : list Plan.du) (g : dgrouped) : list duchain :=
 Record payload := mkPl {
   pl_path : path; pl_groups : list duchain; pl_data : option (list (str * json));
   pl_errs : list err; pl_calls : list call;
-  pl_nested : bool }.      (* produced by the sub-executor of another execution group *)
+  pl_nested : bool;        (* produced by the sub-executor of another execution group *)
+  pl_keys : list str }.    (* the response keys of its grouped field set *)
 
 Definition pre_pl (seg : pathseg) (p : payload) : payload :=
-  mkPl (seg :: pl_path p) (pl_groups p) (pl_data p) (pl_errs p) (pl_calls p) (pl_nested p).
+  mkPl (seg :: pl_path p) (pl_groups p) (pl_data p) (pl_errs p) (pl_calls p) (pl_nested p) (pl_keys p).
 Definition nest_pl (p : payload) : payload :=
-  mkPl (pl_path p) (pl_groups p) (pl_data p) (pl_errs p) (pl_calls p) true.
+  mkPl (pl_path p) (pl_groups p) (pl_data p) (pl_errs p) (pl_calls p) true (pl_keys p).
 Definition pre_pls (seg : pathseg) (ps : list payload) : list payload := map (pre_pl seg) ps.
 
 (* result, payloads of the execution groups created below, "some collection repeated a deferred visit" *)
@@ -238,6 +239,20 @@ Definition xout : Type := (out * list payload * bool)%type.
 Definition xcatch (t : ty) (x : xout) : xout :=
   let '(o, pls, rv) := x in
   (catch t o, match o with (CErr, _, _) => [] | _ => pls end, rv).
+
+(* error propagation disabled for the operation (handle_field_error with error_propagation = False):
+   a field error is caught at the field / list item where it is raised, whatever the type *)
+Definition catch_np (o : out) : out :=
+  match o with
+  | (CErr, es, cs) => (CVal JNull, es, cs)
+  | _ => o
+  end.
+
+Definition gcatch (np : bool) (t : ty) (o : out) : out := if np then catch_np o else catch t o.
+
+Definition gxcatch (np : bool) (t : ty) (x : xout) : xout :=
+  let '(o, pls, rv) := x in
+  (gcatch np t o, match o with (CErr, _, _) => [] | _ => pls end, rv).
 
 Inductive xfres := XSkip | XRes (x : xout).
 
@@ -304,7 +319,7 @@ Fixpoint dexec_deferred (ef : list N -> list dfield -> option xfres)
       match dexec_deferred ef rest with
       | None => None
       | Some (pls', rv') =>
-          Some (mkPl [] (group_chains sdu g) r es cs false
+          Some (mkPl [] (group_chains sdu g) r es cs false (map fst g)
                   :: match r with Some _ => map nest_pl pls | None => [] end ++ pls',
                 rv || rv')
       end
@@ -313,7 +328,8 @@ Fixpoint dexec_deferred (ef : list N -> list dfield -> option xfres)
 
 (* ------------------------------------------------------------------ execution *)
 
-Section DExec.
+Section GExec.
+  Variable np : bool.           (* true: error propagation disabled for the operation *)
   Variable s : schema.
   Variable frags : list fragment.
   Variable cv : list (str * value).
@@ -321,7 +337,7 @@ Section DExec.
 
   (* [parent]: the executor's defer_usage_set ([] for the initial executor); [base]: first free
      defer usage identity; [depth]: length of the response path of the current position *)
-  Fixpoint dexec_sels (fuel : nat) (tn : str) (obj : list (str * data))
+  Fixpoint gexec_sels (fuel : nat) (tn : str) (obj : list (str * data))
     (srcs : list (duchain * list selection)) (parent : list N) (base : N) (depth : nat)
     : option xout :=
     match fuel with
@@ -332,11 +348,11 @@ Section DExec.
       | Some st =>
         let base' := base + N.of_nat (length (c_new st)) in
         let p := if planning then plan_of (c_g st) parent else (c_g st, []) in
-        match dexec_groups (dexec_field f tn obj parent base' depth) (fst p) with
+        match dexec_groups (gexec_field f tn obj parent base' depth) (fst p) with
         | None => None
         | Some (None, es, cs, _, rv) => Some ((CErr, es, cs), [], c_rev st || rv)
         | Some (Some kvs, es, cs, pls, rv) =>
-          match dexec_deferred (fun par => dexec_field f tn obj par base' depth) (snd p) with
+          match dexec_deferred (fun par => gexec_field f tn obj par base' depth) (snd p) with
           | None => None
           | Some (dpls, rv') => Some ((CVal (JObj kvs), es, cs), pls ++ dpls, c_rev st || rv || rv')
           end
@@ -344,7 +360,7 @@ Section DExec.
       end
     end
 
-  with dexec_field (fuel : nat) (tn : str) (obj : list (str * data)) (parent : list N) (base : N)
+  with gexec_field (fuel : nat) (tn : str) (obj : list (str * data)) (parent : list N) (base : N)
     (depth : nat) (fs : list dfield) : option xfres :=
     match fuel with
     | O => None
@@ -359,20 +375,20 @@ Section DExec.
           | None => Some XSkip
           | Some fd =>
             match coerce_args s cv (f_args fd) (fs_args f1) with
-            | None => Some (XRes (catch (f_type fd) (raise_here CauseArgs), [], false))
+            | None => Some (XRes (gcatch np (f_type fd) (raise_here CauseArgs), [], false))
             | Some args =>
               let d := match lookup (fs_name f1) obj with Some d => d | None => DNull end in
-              match dcomplete f (f_type fd) fs d parent base (S depth) with
+              match gcomplete f (f_type fd) fs d parent base (S depth) with
               | None => None
               | Some ((r, es, cs), pls, rv) =>
-                  Some (XRes (xcatch (f_type fd) ((r, es, ([], fs_name f1, args) :: cs), pls, rv)))
+                  Some (XRes (gxcatch np (f_type fd) ((r, es, ([], fs_name f1, args) :: cs), pls, rv)))
               end
             end
           end
       end
     end
 
-  with dcomplete (fuel : nat) (t : ty) (fs : list dfield) (d : data) (parent : list N) (base : N)
+  with gcomplete (fuel : nat) (t : ty) (fs : list dfield) (d : data) (parent : list N) (base : N)
     (depth : nat) : option xout :=
     match fuel with
     | O => None
@@ -382,7 +398,7 @@ Section DExec.
       | _ =>
         match t with
         | TNonNull t' =>
-            match dcomplete f t' fs d parent base depth with
+            match gcomplete f t' fs d parent base depth with
             | None => None
             | Some ((CVal JNull, es, cs), _, rv) => Some ((CErr, es ++ [([], CauseNull)], cs), [], rv)
             | Some x => Some x
@@ -392,7 +408,7 @@ Section DExec.
             | DNull => Some ((CVal JNull, [], []), [], false)
             | DList items =>
                 match dcomplete_items
-                        (fun x => option_map (xcatch it) (dcomplete f it fs x parent base (S depth)))
+                        (fun x => option_map (gxcatch np it) (gcomplete f it fs x parent base (S depth)))
                         items O with
                 | None => None
                 | Some (Some js, es, cs, pls, rv) => Some ((CVal (JList js), es, cs), pls, rv)
@@ -406,15 +422,14 @@ Section DExec.
             | _ =>
               match lookup_type s n with
               | Some (TObject _ _) =>
-                  match d with
-                  | DObj _ flds => dexec_sels f n flds (srcs_of fs) parent base depth
-                  | _ => Some (raise_here CauseType, [], false)
-                  end
+                  (* complete_object_value does not inspect the value: a value that is not an
+                     object has no fields (Exec/Spec.v data_fields) *)
+                  gexec_sels f n (data_fields d) (srcs_of fs) parent base depth
               | Some (TInterface _) | Some (TUnion _) =>
                   match d with
                   | DObj rt flds =>
                       if is_object s rt && possible s n rt
-                      then dexec_sels f rt flds (srcs_of fs) parent base depth
+                      then gexec_sels f rt flds (srcs_of fs) parent base depth
                       else Some (raise_here CauseType, [], false)
                   | _ => Some (raise_here CauseType, [], false)
                   end
@@ -433,7 +448,13 @@ Section DExec.
         end
       end
     end.
-End DExec.
+End GExec.
+
+(* the executors with error propagation (the default) *)
+Definition dexec_sels := gexec_sels false.
+Definition dexec_field := gexec_field false.
+Definition dcomplete := gcomplete false.
+
 
 (* ------------------------------------------------------------------ delivery
    Which execution group values reach the client (work_queue.py): a failed execution group fails every
@@ -504,12 +525,44 @@ Definition dexecute_fuel (planning : bool) (fuel : nat) (s : schema) (d : docume
     end
   end.
 
+(* the execution group values before the work queue decides which of them are delivered; [np]: the
+   operation carries @experimental_disableErrorPropagation *)
+Definition gexecute_fuel (np planning : bool) (fuel : nat) (s : schema) (d : document)
+  (vars : list (str * value)) (root : data) : dresponse :=
+  match coerce_variable_values s (d_vars d) vars with
+  | None => DRequestError
+  | Some cv =>
+    match root_type s (d_kind d) with
+    | None => DRequestError
+    | Some tn =>
+      if negb (is_object s tn) then DRequestError else
+      let flds := match root with DObj _ f => f | _ => [] end in
+      match gexec_sels np s (d_frags d) cv planning fuel tn flds [([], d_sels d)] [] 0 O with
+      | None => DOutOfFuel
+      | Some ((CVal j, es, cs), pls, rv) => DResp j es cs pls rv
+      | Some ((CErr, es, cs), _, rv) => DResp JNull es cs [] rv
+      end
+    end
+  end.
+
 (* THE entry points: experimental_execute_incrementally, and the same request on the base executor *)
 Definition dexecute (s : schema) (d : document) (vars : list (str * value)) (root : data)
   : dresponse := dexecute_fuel true (default_fuel s d root) s d vars root.
 
 Definition dexecute_plain (s : schema) (d : document) (vars : list (str * value)) (root : data)
   : dresponse := dexecute_fuel false (default_fuel s d root) s d vars root.
+
+(* all execution group values of the incremental run, delivered or not *)
+Definition dexecute_raw (s : schema) (d : document) (vars : list (str * value)) (root : data)
+  : dresponse := gexecute_fuel false true (default_fuel s d root) s d vars root.
+
+(* the non-propagating reference: the base executor with error propagation disabled *)
+Definition dexecute_np (s : schema) (d : document) (vars : list (str * value)) (root : data)
+  : dresponse := gexecute_fuel true false (default_fuel s d root) s d vars root.
+
+(* the incremental executor with error propagation disabled *)
+Definition dexecute_np_incremental (s : schema) (d : document) (vars : list (str * value)) (root : data)
+  : dresponse := gexecute_fuel true true (default_fuel s d root) s d vars root.
 
 (* ------------------------------------------------------------------ the reference: @defer erased *)
 
@@ -621,3 +674,120 @@ Fixpoint defer_free_sel (x : selection) : bool :=
 
 Definition defer_free (d : document) : bool :=
   forallb defer_free_sel (d_sels d) && forallb (fun fr => forallb defer_free_sel (fr_sels fr)) (d_frags d).
+
+(* ------------------------------------------------------------------ the error clause of C04
+   "When errors do propagate, the assembled data is that non-propagating reference with some subtrees
+   replaced by null and some whole deferred fragments withheld, each withheld one being reported as
+   completed with errors." *)
+
+(* what the merge sees of a payload: target path and data *)
+Definition cpl : Type := (path * option (list (str * json)))%type.
+Definition core (p : payload) : cpl := (pl_path p, pl_data p).
+
+Definition capply (j : json) (c : cpl) : option json :=
+  match snd c with
+  | None => Some j
+  | Some kvs => Merge.update_at (fst c) (merge_into kvs) j
+  end.
+
+Fixpoint capplys (j : json) (cs : list cpl) : option json :=
+  match cs with
+  | [] => Some j
+  | c :: r => match capply j c with Some j' => capplys j' r | None => None end
+  end.
+
+
+(* cs' is a sub-multiset of cs, in any order *)
+Definition SubPerm {A} (cs' cs : list A) : Prop := exists rest, Permutation (cs' ++ rest) cs.
+
+(* [expl Perr Pwh m n]: m is n with some subtrees replaced by null - only where [Perr] holds of a path
+   at or below the null (paths relative to the current position) - and some object keys withheld -
+   only keys k with [Pwh [] k] at the object's position *)
+Inductive expl : (path -> Prop) -> (path -> str -> Prop) -> json -> json -> Prop :=
+| ex_null Pe Pw n : n = JNull \/ (exists q, Pe q) -> expl Pe Pw JNull n
+| ex_int Pe Pw z : expl Pe Pw (JInt z) (JInt z)
+| ex_float Pe Pw a b : expl Pe Pw (JFloat a b) (JFloat a b)
+| ex_str Pe Pw x : expl Pe Pw (JStr x) (JStr x)
+| ex_bool Pe Pw b : expl Pe Pw (JBool b) (JBool b)
+| ex_list Pe Pw a b :
+    length a = length b ->
+    (forall i x y, nth_error a i = Some x -> nth_error b i = Some y ->
+       expl (fun q => Pe (PIdx i :: q)) (fun q k => Pw (PIdx i :: q) k) x y) ->
+    expl Pe Pw (JList a) (JList b)
+| ex_obj Pe Pw a b :
+    (forall k v, In (k, v) a ->
+       exists w, In (k, w) b /\ expl (fun q => Pe (PKey k :: q)) (fun q k' => Pw (PKey k :: q) k') v w) ->
+    (forall k w, In (k, w) b -> (exists v, In (k, v) a) \/ Pw [] k) ->
+    expl Pe Pw (JObj a) (JObj b).
+
+(* reported errors at a position, given the execution group values [pls] of which the sub-multiset with
+   cores [cs'] was applied: the errors [es] of the initial result, and the errors of applied values *)
+Definition PErr (es : list err) (pls : list payload) (cs' : list cpl) (q : path) : Prop :=
+  In q (map fst es) \/
+  exists p e, In p pls /\ In (core p) cs' /\ In e (pl_errs p) /\ q = pl_path p ++ fst e.
+
+(* withheld keys: the keys of execution groups that failed or were not applied *)
+Definition PWh (pls : list payload) (cs' : list cpl) (q : path) (k : str) : Prop :=
+  exists p, In p pls /\ pl_path p = q /\ In k (pl_keys p) /\ (pl_data p = None \/ ~ In (core p) cs').
+
+(* for every sub-multiset of the execution group values, applied in any order the merge accepts *)
+Definition ExplAny (j0 : json) (es : list err) (pls : list payload) (jn : json) : Prop :=
+  forall cs' m', SubPerm cs' (map core pls) -> capplys j0 cs' = Some m' ->
+    expl (PErr es pls cs') (PWh pls cs') m' jn.
+
+(* [hidden Pw q m]: the position q is not delivered in m - on the way m has a null, or an object lacks
+   the next key and that key is withheld *)
+Fixpoint hidden (Pw : path -> str -> Prop) (q : path) (m : json) {struct q} : Prop :=
+  match m with
+  | JNull => True
+  | _ =>
+    match q with
+    | [] => False
+    | PKey k :: r =>
+        match m with
+        | JObj kvs =>
+            match lookup k kvs with
+            | Some v => hidden (fun q' k' => Pw (PKey k :: q') k') r v
+            | None => Pw [] k
+            end
+        | _ => False
+        end
+    | PIdx i :: r =>
+        match m with
+        | JList l =>
+            match nth_error l i with
+            | Some v => hidden (fun q' k' => Pw (PIdx i :: q') k') r v
+            | None => False
+            end
+        | _ => False
+        end
+    end
+  end.
+
+(* every error [esn] of the non-propagating reference is reported by the incremental run (initial
+   result or an applied value) at the same path, or its position is not delivered *)
+Definition ErrAcc (j0 : json) (es : list err) (pls : list payload) (esn : list err) : Prop :=
+  forall cs' m', SubPerm cs' (map core pls) -> capplys j0 cs' = Some m' ->
+    forall x, In x esn -> PErr es pls cs' (fst x) \/ hidden (PWh pls cs') (fst x) m'.
+
+(* ------------------------------------------------------------------ a static condition under which no
+   collection repeats a deferred fragment visit ([rev] = false): no fragment name is spread both with an
+   active @defer and without one, anywhere in the document *)
+Fixpoint spread_names (cv : list (str * value)) (deferred : bool) (x : selection) : list str :=
+  match x with
+  | SField _ _ _ _ sub => flat_map (spread_names cv deferred) sub
+  | SSpread name dirs =>
+      match defer_active cv dirs, deferred with
+      | Some _, true => [name]
+      | None, false => [name]
+      | _, _ => []
+      end
+  | SInline _ _ sub => flat_map (spread_names cv deferred) sub
+  end.
+
+Definition doc_spread_names (cv : list (str * value)) (deferred : bool) (d : document) : list str :=
+  flat_map (spread_names cv deferred) (d_sels d)
+  ++ flat_map (fun fr => flat_map (spread_names cv deferred) (fr_sels fr)) (d_frags d).
+
+Definition no_mixed_spreads (cv : list (str * value)) (d : document) : bool :=
+  forallb (fun n => negb (mem n (doc_spread_names cv false d))) (doc_spread_names cv true d).
